@@ -345,6 +345,10 @@ func cmdCheck(args []string) {
 			// a function that was verified against its frame (no write outside it) now writes package-level state
 			inBase = true
 		}
+		if base != nil && !inBase && o.Kind == "never-returns" && o.Status == "sat" && base.hasFunc(o.Func) {
+			// a function under "flag noreturn" that was verified (no reachable return at all) can now return
+			inBase = true
+		}
 		if base == nil {
 			inBase = true // no baseline recorded yet: every failure is reported
 		}
